@@ -479,7 +479,7 @@ func (g *mgen) genReq(kind, id string, order []string, collide float64, focus st
 				if taken && prev == p {
 					continue
 				}
-				if taken && !(g.rng.Float64() < collide) && !(u.Ignore && focus == "C05" && g.rng.Intn(3) == 0) {
+				if taken && !(g.rng.Float64() < collide) && !(u.Ignore && (focus == "C05" || focus == "C04" || focus == "C02") && g.rng.Intn(3) == 0) {
 					continue
 				}
 				used[key] = true
